@@ -27,6 +27,8 @@ func propC07() Property {
 			{ID: "C07-R7", Desc: "outgoing ResetSeqNumFlag inspected after the ToAdmin callback", Min: 1, Run: c07R7},
 			{ID: "C07-R8", Desc: "a reset empties the queue and the store in one critical section (= C02-R7)", Min: 1, Run: c02R7},
 			{ID: "C07-R9", Desc: "a reset removes every stored file of the old epoch (= C16-R13)", Min: 2, Run: c16R13},
+			{ID: "C07-R15", Desc: "a reset persists the renewed creation time with the fresh counters (= C16-R4)", Min: 3, Run: c16R4},
+			{ID: "C07-R14", Desc: "an outgoing reset Logon resets the store whether request or reply", Min: 1, Run: c07R14},
 			{ID: "C07-R13", Desc: "database stores reset the cached counters only after the messages were deleted (= C16-R16)", Min: 2, Run: c16R16},
 			{ID: "C07-R12", Desc: "NextExpectedMsgSeqNum(789) is evaluated only on a Logon without ResetSeqNumFlag", Min: 1, Run: c07R12},
 			{ID: "C07-R11", Desc: "file counters are rewritten in place at fixed width (= C17-R3)", Min: 3, Run: c17R3},
